@@ -442,6 +442,40 @@ def _mcp_check(tier, seed):
         ok3, _, _ = validate(dpath, 'dropped-response-self-test')
         if ok3 and len(drop) < len(events):
             raise ToolError('trace specification does not bind: a dropped response was accepted')
+        # ---- statelessness on NEAR-IDENTICAL payloads: ledgers that differ only in where the white space falls between two
+        # tokens (ABC1 20 / ABC 120), in one digit, or in the letter case of a ticker, asked one after the other in ONE
+        # session; each answer must be what the CLI computes for that very text (C20: depends only on its own arguments;
+        # C14: a ledger gives the same result in the CLI and in the MCP tools)
+        near = {'a': '2024-05-01 BUY ABC1 20 @ 3 GBP\n', 'b': '2024-05-01 BUY ABC 120 @ 3 GBP\n', 'c': '2024-05-01 BUY ABC 12 0 @ 3 GBP\n'.replace('12 0', '12') + '2024-05-01 BUY ABC 108 @ 3 GBP\n',
+                'd': '2024-05-01 BUY ABC1 2 0 @ 3 GBP\n'.replace('2 0', '21'), 'e': '2024-05-01 BUY abc1 20 @ 3 GBP\n'}
+        ncls, nexp = {'initialize': cls['initialize']}, {}
+        for k, text in near.items():
+            open(os.path.join(root, 'ref', f'near_{k}.cgt'), 'w').write(text)
+            ncls[f'np_{k}'] = call('parse_transactions', {'transactions': text})
+            ncls[f'nc_{k}'] = call('calculate_report', {'transactions': text})
+            nexp[f'np_{k}'] = cli_digest(['parse', f'near_{k}.cgt'], lambda j: j)
+            nexp[f'nc_{k}'] = cli_digest(['report', '--format', 'json', f'near_{k}.cgt'], core)
+        nscript = []
+        for pre_ in ('np_', 'nc_'):
+            for k in ('a', 'b', 'a', 'c', 'b', 'd', 'a', 'e', 'b', 'e', 'd', 'c'):
+                nscript += [('send', pre_ + k), ('drain',)]
+        ev, resp = play(root, 'near', nscript, ncls, patience=40)
+        sent = {e['id']: e['class'] for e in ev if e['event'] == 'Send'}
+        nn = 0
+        for rid, k in sent.items():
+            if k not in nexp:
+                continue
+            nn += 1
+            if rid not in resp:
+                findings.append({'prop': 'C20', 'kind': 'unanswered', 'case': 0, 'detail': f'a {k} request in the near-identical-payload session was never answered', 'input': json.dumps(ncls[k])[:500], 'data': {}})
+                continue
+            kind_, dg = digest_of(resp[rid])
+            if kind_ != 'result' or dg != nexp[k]:
+                for pr in ('C20', 'C14'):
+                    findings.append({'prop': pr, 'kind': 'mcp_history_dependent', 'case': 0, 'input': json.dumps(ncls[k])[:500], 'data': {},
+                                     'detail': f'request #{rid} ({k}) of a session of near-identical ledgers is not answered with what the CLI computes for its own text '
+                                               f'(answers depend on an earlier request of the session)'})
+                break
         # ---- C07 through the MCP front-end: 5/6 April and leap days; expected tax years come from MC_Calendar (TLC)
         cal = tlc('MC_Calendar', os.path.join('cfg', 'MC_Calendar.cfg'), workers=8, timeout=3000)
         want = {}
